@@ -62,6 +62,38 @@ impl SimFs {
             .collect()
     }
 
+    /// Does the lookup of `url` from `base` run into a REGULAR FILE where it needs a directory
+    /// (`open("w/s/u.scss")` while `w/s` is a file: ENOTDIR, not ENOENT)?
+    pub fn blocked_by_file(&self, base: &str, url: &str) -> bool {
+        if url.starts_with('/') || !self.is_dir(base) {
+            return false;
+        }
+        let mut cur: String = base.to_string();
+        let comps: Vec<&str> = url.split('/').collect();
+        for c in &comps[..comps.len().saturating_sub(1)] {
+            match *c {
+                "" | "." => {}
+                ".." => {
+                    if cur.is_empty() {
+                        return false;
+                    }
+                    cur = parent(&cur).to_string();
+                }
+                name => {
+                    let next = if cur.is_empty() { name.to_string() } else { format!("{cur}/{name}") };
+                    if self.is_file(&next) {
+                        return true;
+                    }
+                    if !self.is_dir(&next) {
+                        return false;
+                    }
+                    cur = next;
+                }
+            }
+        }
+        false
+    }
+
     /// Like `resolve`, for a path that must name a directory (`.` and `..` allowed at the end).
     pub fn resolve_dir(&self, base: &str, url: &str) -> Option<String> {
         if url.starts_with('/') || !self.is_dir(base) {
